@@ -89,6 +89,8 @@ func main() {
 				}
 			}
 		}
+	case "spectest":
+		os.Exit(specTestCmd(*root))
 	case "replay":
 		fs2 := flag.NewFlagSet("replay", flag.ExitOnError)
 		file := fs2.String("file", "", "replay record")
@@ -195,6 +197,20 @@ func runCheck(root, prop, tier string, makeBaseline, verbose, keep bool, onlyFn 
 	work := filepath.Join(root, ".work", prop)
 	os.RemoveAll(work)
 	eng.discharge(obls, work, timeout, tier == "thorough", 14)
+	// ground checks of the spec functions these contracts use
+	usedSpecFiles := map[string]bool{}
+	for _, o := range obls {
+		for name := range o.ctx.usedSpecs {
+			if sp := eng.specs[name]; sp != nil {
+				usedSpecFiles[sp.File] = true
+			}
+		}
+	}
+	var specTests []specTestResult
+	specOK := true
+	if len(usedSpecFiles) > 0 {
+		specTests, specOK = runSpecTests(root, usedSpecFiles, filepath.Join(work, "spectest"))
+	}
 
 	// classify
 	base := Baseline{Property: prop}
@@ -319,6 +335,10 @@ func runCheck(root, prop, tier string, makeBaseline, verbose, keep bool, onlyFn 
 		lines = append(lines, fmt.Sprintf("TOOL-ERROR property=%s canary %s was proved: the check is vacuous", prop, o.Key))
 		toolErr = true
 	}
+	if !specOK {
+		lines = append(lines, fmt.Sprintf("TOOL-ERROR property=%s a spec function fails its standard's ground checks (see evidence spec_tests)", prop))
+		toolErr = true
+	}
 	for _, o := range coverBad {
 		lines = append(lines, fmt.Sprintf("TOOL-ERROR property=%s cover %s unreachable: contradictory assumptions", prop, o.Key))
 		toolErr = true
@@ -382,6 +402,7 @@ func runCheck(root, prop, tier string, makeBaseline, verbose, keep bool, onlyFn 
 			"canaries_failed_as_expected": nCanaryOK,
 			"covers_reachable":            nCoverOK,
 			"binding_problems":            binding,
+			"spec_tests":                  specTests,
 			"engine_notes":                notes,
 			"samples":                     samples,
 		},
